@@ -227,6 +227,8 @@ def program(base, texts):
 
 
 def resolve(v, env):
+    if isinstance(v, list):  # [symbol, offset]
+        return (env[v[0]] + v[1]) & 0xFFFF
     return (env[v] if isinstance(v, str) else v) & 0xFFFF
 
 
